@@ -1,6 +1,7 @@
 mod calib;
 mod cbrun;
 mod config;
+mod crash;
 mod csvrun;
 mod dec;
 mod det;
@@ -122,6 +123,11 @@ fn main() {
             let mut run = Runner::new(&args);
             det::run(&mut run, args.req("data"), args.get("in"), args.num("seed", 1), args.num("nsim", 8), args.num("n", 40),
                 args.get("tier") == Some("thorough"));
+            run.finish();
+        }
+        "crash" => {
+            let mut run = Runner::new(&args);
+            crash::run(&mut run, args.req("data"), args.get("in"), args.num("seed", 1), args.num("n", 300), args.num("nsim", 20));
             run.finish();
         }
         "config" => {
